@@ -1576,3 +1576,240 @@ package exec
 //@     invariant sascq($FQ$) ==> sasc(result) && (forall j Int :: 0 <= j && j < len(result) && #k >= 0 ==> pos(result[j]) <= pos(qat($FQ$, #k)))
 //@     invariant sdescq($FQ$) ==> sdesc(result) && (forall j Int :: 0 <= j && j < len(result) && #k >= 0 ==> pos(result[j]) >= pos(qat($FQ$, #k)))
 //@     decreases len(nodeSet) - #k
+
+
+//@ extern fmt.Errorf(format, a) (r)
+//@   pure
+//@   ensures r != nil
+
+// ---------- name tests (exec/contextfn_paths.go): names resolve through the query's bindings only ----------
+
+//@ macro T6(n) = namedNode(n) && nodeSpace(nodeOf(n)) == namespaceValue
+//@ macro T7(n) = namedNode(n) && nodeLocal(nodeOf(n)) == localValue
+//@ macro T8(n) = namedNode(n) && nodeLocal(nodeOf(n)) == local && nodeSpace(nodeOf(n)) == namespaceValue
+
+//@ func nameTestNamespaceAnyLocal(namespaceLookup, context, expr) (err)
+//@   property C01 C03 C11 C13 C15
+//@   uses sem
+//@   requires context != nil && expr != nil && resok(context.result) && wf(context.result)
+//@   modifies context.result
+//@   ensures (err != nil) == (!mhas($NSD$, namespaceLookup))                                                                        @error-iff-unbound-prefix
+//@   ensures err == nil && !isASet(old(absv(context.result))) ==> context.result == old(context.result)           @non-node-set-unchanged
+//@   ensures err == nil && isASet(old(absv(context.result))) ==> isASet(absv(context.result)) && resok(context.result) && wf(context.result)   @node-set
+//@   ensures err == nil && sascq(aset(old(absv(context.result)))) ==> sascq($RSEQ$) && sascq(filterSeq(6, mget($NSD$, namespaceLookup), "", aset(old(absv(context.result)))))                 @ascending-kept
+//@   ensures err == nil && sdescq(aset(old(absv(context.result)))) ==> sdescq($RSEQ$) && sdescq(filterSeq(6, mget($NSD$, namespaceLookup), "", aset(old(absv(context.result)))))              @descending-kept
+//@   ensures err == nil && isASet(old(absv(context.result))) ==> sameset($RSEQ$, filterSeq(6, mget($NSD$, namespaceLookup), "", aset(old(absv(context.result)))))                             @exactly-the-nodes-passing-the-test
+//@   ensures err == nil && isASet(old(absv(context.result))) ==> aeq(absv(context.result), ASet(filterSeq(6, mget($NSD$, namespaceLookup), "", aset(old(absv(context.result))))))             @filtered
+//@   loop 0
+//@     invariant (0 - 1 <= #k && #k < len(nodeSet) || (len(nodeSet) == 0 && #k == 0 - 1)) && context.result == old(context.result) && nodes(nodeSet) && wf(nodeSet) && seqOf(nodeSet) == $FQ$ && fresh(result) && nodes(result) && len(result) <= cap(result)
+//@     invariant forall n Cursor :: mem(result, n) ==> qmem($FQ$, n) && $T6(n)$
+//@     invariant forall i Int :: 0 <= i && i <= #k && $T6(qat($FQ$, i))$ ==> mem(result, qat($FQ$, i))
+//@     invariant forall n Cursor :: mem(result, n) ==> exists i Int :: 0 <= i && i <= #k && qat($FQ$, i) == n
+//@     invariant sascq($FQ$) ==> sasc(result) && (forall j Int :: 0 <= j && j < len(result) && #k >= 0 ==> pos(result[j]) <= pos(qat($FQ$, #k)))
+//@     invariant sdescq($FQ$) ==> sdesc(result) && (forall j Int :: 0 <= j && j < len(result) && #k >= 0 ==> pos(result[j]) >= pos(qat($FQ$, #k)))
+//@     decreases len(nodeSet) - #k
+
+//@ func nameTestLocalAnyNamespace(localValue, context, expr) (err)
+//@   property C01 C03 C11 C13 C15
+//@   uses sem
+//@   requires context != nil && expr != nil && resok(context.result) && wf(context.result)
+//@   modifies context.result
+//@   ensures (err != nil) == (false)                                                                        @error-iff-unbound-prefix
+//@   ensures err == nil && !isASet(old(absv(context.result))) ==> context.result == old(context.result)           @non-node-set-unchanged
+//@   ensures err == nil && isASet(old(absv(context.result))) ==> isASet(absv(context.result)) && resok(context.result) && wf(context.result)   @node-set
+//@   ensures err == nil && sascq(aset(old(absv(context.result)))) ==> sascq($RSEQ$) && sascq(filterSeq(7, "", localValue, aset(old(absv(context.result)))))                 @ascending-kept
+//@   ensures err == nil && sdescq(aset(old(absv(context.result)))) ==> sdescq($RSEQ$) && sdescq(filterSeq(7, "", localValue, aset(old(absv(context.result)))))              @descending-kept
+//@   ensures err == nil && isASet(old(absv(context.result))) ==> sameset($RSEQ$, filterSeq(7, "", localValue, aset(old(absv(context.result)))))                             @exactly-the-nodes-passing-the-test
+//@   ensures err == nil && isASet(old(absv(context.result))) ==> aeq(absv(context.result), ASet(filterSeq(7, "", localValue, aset(old(absv(context.result))))))             @filtered
+//@   loop 0
+//@     invariant (0 - 1 <= #k && #k < len(nodeSet) || (len(nodeSet) == 0 && #k == 0 - 1)) && context.result == old(context.result) && nodes(nodeSet) && wf(nodeSet) && seqOf(nodeSet) == $FQ$ && fresh(result) && nodes(result) && len(result) <= cap(result)
+//@     invariant forall n Cursor :: mem(result, n) ==> qmem($FQ$, n) && $T7(n)$
+//@     invariant forall i Int :: 0 <= i && i <= #k && $T7(qat($FQ$, i))$ ==> mem(result, qat($FQ$, i))
+//@     invariant forall n Cursor :: mem(result, n) ==> exists i Int :: 0 <= i && i <= #k && qat($FQ$, i) == n
+//@     invariant sascq($FQ$) ==> sasc(result) && (forall j Int :: 0 <= j && j < len(result) && #k >= 0 ==> pos(result[j]) <= pos(qat($FQ$, #k)))
+//@     invariant sdescq($FQ$) ==> sdesc(result) && (forall j Int :: 0 <= j && j < len(result) && #k >= 0 ==> pos(result[j]) >= pos(qat($FQ$, #k)))
+//@     decreases len(nodeSet) - #k
+
+//@ func nameTestQNameNamespaceWithLocal(namespaceLookup, local, context, expr) (err)
+//@   property C01 C03 C11 C13 C15
+//@   uses sem
+//@   requires context != nil && expr != nil && resok(context.result) && wf(context.result)
+//@   modifies context.result
+//@   ensures (err != nil) == (!mhas($NSD$, namespaceLookup))                                                                        @error-iff-unbound-prefix
+//@   ensures err == nil && !isASet(old(absv(context.result))) ==> context.result == old(context.result)           @non-node-set-unchanged
+//@   ensures err == nil && isASet(old(absv(context.result))) ==> isASet(absv(context.result)) && resok(context.result) && wf(context.result)   @node-set
+//@   ensures err == nil && sascq(aset(old(absv(context.result)))) ==> sascq($RSEQ$) && sascq(filterSeq(8, mget($NSD$, namespaceLookup), local, aset(old(absv(context.result)))))                 @ascending-kept
+//@   ensures err == nil && sdescq(aset(old(absv(context.result)))) ==> sdescq($RSEQ$) && sdescq(filterSeq(8, mget($NSD$, namespaceLookup), local, aset(old(absv(context.result)))))              @descending-kept
+//@   ensures err == nil && isASet(old(absv(context.result))) ==> sameset($RSEQ$, filterSeq(8, mget($NSD$, namespaceLookup), local, aset(old(absv(context.result)))))                             @exactly-the-nodes-passing-the-test
+//@   ensures err == nil && isASet(old(absv(context.result))) ==> aeq(absv(context.result), ASet(filterSeq(8, mget($NSD$, namespaceLookup), local, aset(old(absv(context.result))))))             @filtered
+//@   loop 0
+//@     invariant (0 - 1 <= #k && #k < len(nodeSet) || (len(nodeSet) == 0 && #k == 0 - 1)) && context.result == old(context.result) && nodes(nodeSet) && wf(nodeSet) && seqOf(nodeSet) == $FQ$ && fresh(result) && nodes(result) && len(result) <= cap(result)
+//@     invariant forall n Cursor :: mem(result, n) ==> qmem($FQ$, n) && $T8(n)$
+//@     invariant forall i Int :: 0 <= i && i <= #k && $T8(qat($FQ$, i))$ ==> mem(result, qat($FQ$, i))
+//@     invariant forall n Cursor :: mem(result, n) ==> exists i Int :: 0 <= i && i <= #k && qat($FQ$, i) == n
+//@     invariant sascq($FQ$) ==> sasc(result) && (forall j Int :: 0 <= j && j < len(result) && #k >= 0 ==> pos(result[j]) <= pos(qat($FQ$, #k)))
+//@     invariant sdescq($FQ$) ==> sdesc(result) && (forall j Int :: 0 <= j && j < len(result) && #k >= 0 ==> pos(result[j]) >= pos(qat($FQ$, #k)))
+//@     decreases len(nodeSet) - #k
+
+//@ func execNameTestNamespaceAnyLocal(context, expr) (err)
+//@   property C01 C03 C11 C13 C15
+//@   uses sem
+//@   requires $HPRE$ && nt($B$) == NT_NameTestNamespaceAnyLocal
+//@   modifies context.result
+//@   ensures $HPOSTE$                                                         @error-iff-specified
+//@   ensures $HPOSTV$                                                         @value-is-Sem
+
+//@ func execNameTestNamespaceAnyLocalReservedNameConflict(context, expr) (err)
+//@   property C01 C03 C11 C13 C15
+//@   uses sem
+//@   requires $HPRE$ && nt($B$) == NT_NameTestNamespaceAnyLocalReservedNameConflict
+//@   modifies context.result
+//@   ensures $HPOSTE$                                                         @error-iff-specified
+//@   ensures $HPOSTV$                                                         @value-is-Sem
+//@   loop 0
+//@     invariant $GATHER0$
+//@     decreases nntc($B$) - #k
+//@   loop 1
+//@     invariant $GATHER1$
+//@     decreases 1 - #k
+
+//@ func execNameTestLocalAnyNamespace(context, expr) (err)
+//@   property C01 C03 C11 C13 C15
+//@   uses sem
+//@   requires $HPRE$ && nt($B$) == NT_NameTestLocalAnyNamespace
+//@   modifies context.result
+//@   ensures $HPOSTE$                                                         @error-iff-specified
+//@   ensures $HPOSTV$                                                         @value-is-Sem
+
+//@ func execNameTestLocalAnyNamespaceReservedNameConflict(context, expr) (err)
+//@   property C01 C03 C11 C13 C15
+//@   uses sem
+//@   requires $HPRE$ && nt($B$) == NT_NameTestLocalAnyNamespaceReservedNameConflict
+//@   modifies context.result
+//@   ensures $HPOSTE$                                                         @error-iff-specified
+//@   ensures $HPOSTV$                                                         @value-is-Sem
+//@   loop 0
+//@     invariant $GATHER0$
+//@     decreases nntc($B$) - #k
+
+//@ func execNameTestQNameNamespaceWithLocal(context, expr) (err)
+//@   property C01 C03 C11 C13 C15
+//@   uses sem
+//@   requires $HPRE$ && nt($B$) == NT_NameTestQNameNamespaceWithLocal
+//@   modifies context.result
+//@   ensures $HPOSTE$                                                         @error-iff-specified
+//@   ensures $HPOSTV$                                                         @value-is-Sem
+
+//@ func execNameTestQNameNamespaceWithLocalReservedNameConflictNamespace(context, expr) (err)
+//@   property C01 C03 C11 C13 C15
+//@   uses sem
+//@   requires $HPRE$ && nt($B$) == NT_NameTestQNameNamespaceWithLocalReservedNameConflictNamespace
+//@   modifies context.result
+//@   ensures $HPOSTE$                                                         @error-iff-specified
+//@   ensures $HPOSTV$                                                         @value-is-Sem
+//@   loop 0
+//@     invariant $GATHER0$
+//@     decreases nntc($B$) - #k
+
+//@ func execNameTestQNameNamespaceWithLocalReservedNameConflictLocal(context, expr) (err)
+//@   property C01 C03 C11 C13 C15
+//@   uses sem
+//@   requires $HPRE$ && nt($B$) == NT_NameTestQNameNamespaceWithLocalReservedNameConflictLocal
+//@   modifies context.result
+//@   ensures $HPOSTE$                                                         @error-iff-specified
+//@   ensures $HPOSTV$                                                         @value-is-Sem
+//@   loop 0
+//@     invariant $GATHER0$
+//@     decreases nntc($B$) - #k
+
+//@ func execNameTestQNameNamespaceWithLocalReservedNameConflictBoth(context, expr) (err)
+//@   property C01 C03 C11 C13 C15
+//@   uses sem
+//@   requires $HPRE$ && nt($B$) == NT_NameTestQNameNamespaceWithLocalReservedNameConflictBoth
+//@   modifies context.result
+//@   ensures $HPOSTE$                                                         @error-iff-specified
+//@   ensures $HPOSTV$                                                         @value-is-Sem
+//@   loop 0
+//@     invariant $GATHER0$
+//@     decreases nntc($B$) - #k
+
+//@ macro TQL(n) = (namedNode(n) && nodeSpace(nodeOf(n)) == "" && nodeLocal(nodeOf(n)) == queryName) || (ckind(n) == 3 && nsValue(nodeOf(n)) == mget($NSD$, queryName))
+
+//@ func execNameTestQNameLocalOnly(context, expr) (err)
+//@   property C01 C03 C11 C13 C15
+//@   uses sem
+//@   requires $HPRE$ && (nt($B$) == NT_NameTestQNameLocalOnly || nt($B$) == NT_NameTestQNameLocalOnlyReservedNameConflict)
+//@   modifies context.result
+//@   hint execChildren#1 isASet(absv(context.result)) && sameset($RSEQ$, filterSeq(9, mget($NSD$, btext($B$, expr.lex)), btext($B$, expr.lex), aset(old(absv(context.result)))))
+//@   hint execChildren#1 sascq(aset(old(absv(context.result)))) ==> sascq($RSEQ$) && sascq(filterSeq(9, mget($NSD$, btext($B$, expr.lex)), btext($B$, expr.lex), aset(old(absv(context.result)))))
+//@   hint execChildren#1 sdescq(aset(old(absv(context.result)))) ==> sdescq($RSEQ$) && sdescq(filterSeq(9, mget($NSD$, btext($B$, expr.lex)), btext($B$, expr.lex), aset(old(absv(context.result)))))
+//@   hint execChildren#1 aeq(absv(context.result), ASet(filterSeq(9, mget($NSD$, btext($B$, expr.lex)), btext($B$, expr.lex), aset(old(absv(context.result))))))
+//@   ensures $HPOSTE$                                                         @error-iff-specified
+//@   ensures $HPOSTV$                                                         @value-is-Sem
+//@   loop 0
+//@     invariant (0 - 1 <= #k && #k < len(nodeSet) || (len(nodeSet) == 0 && #k == 0 - 1)) && context.result == old(context.result) && nodes(nodeSet) && wf(nodeSet) && seqOf(nodeSet) == $FQ$ && fresh(nextResult) && nodes(nextResult) && len(nextResult) <= cap(nextResult)
+//@     invariant forall n Cursor :: mem(nextResult, n) ==> qmem($FQ$, n) && $TQL(n)$
+//@     invariant forall i Int :: 0 <= i && i <= #k && $TQL(qat($FQ$, i))$ ==> mem(nextResult, qat($FQ$, i))
+//@     invariant forall n Cursor :: mem(nextResult, n) ==> exists i Int :: 0 <= i && i <= #k && qat($FQ$, i) == n
+//@     invariant sascq($FQ$) ==> sasc(nextResult) && (forall j Int :: 0 <= j && j < len(nextResult) && #k >= 0 ==> pos(nextResult[j]) <= pos(qat($FQ$, #k)))
+//@     invariant sdescq($FQ$) ==> sdesc(nextResult) && (forall j Int :: 0 <= j && j < len(nextResult) && #k >= 0 ==> pos(nextResult[j]) >= pos(qat($FQ$, #k)))
+//@     decreases len(nodeSet) - #k
+
+// ---------- literals (exec/contextfn.go, exec/contextfn_numbers.go) ----------
+
+//@ func execLiteral(context, expr) (err)
+//@   property C08 C13 C15
+//@   uses sem
+//@   requires $HPRE$ && nt($B$) == NT_Literal
+//@   modifies context.result
+//@   ensures $HPOSTE$                                                         @error-iff-specified
+//@   ensures $HPOSTV$                                                         @value-is-Sem
+
+//@ func execNumber(context, expr) (err)
+//@   property C06 C08 C13 C15
+//@   uses sem
+//@   requires $HPRE$ && nt($B$) == NT_Number
+//@   modifies context.result
+//@   ensures $HPOSTE$                                                         @error-iff-specified
+//@   ensures $HPOSTV$                                                         @value-is-Sem
+
+// ---------- position() and last() (exec/function.go) ----------
+
+//@ func last(context, args) (r, err)
+//@   property C02 C13 C15
+//@   requires context != nil
+//@   ensures err == nil && r == VNum(i2f(context.contextSize))               @size-of-the-filtered-node-set
+
+//@ func position(context, args) (r, err)
+//@   property C02 C13 C15
+//@   requires context != nil
+//@   ensures err == nil && r == VNum(i2f(context.contextPosition + 1))       @one-based-proximity-position
+
+//@ func exprContext.ContextSize(c) (r)
+//@   property C02 C13 C15
+//@   requires c != nil
+//@   ensures r == c.contextSize
+
+// ---------- union (exec/contextfn.go) ----------
+
+//@ func unionCleanup(nextResult) (r)
+//@   property C03 C13 C15
+//@   uses nodeset
+//@   requires nodes(nextResult)
+//@   modifies arr(nextResult)
+//@   ensures nodes(r) && sasc(r)                                             @ascending-no-duplicates
+//@   ensures forall n Cursor :: mem(r, n) == old(mem(nextResult, n))         @same-set
+//@   ensures len(nextResult) > 0 ==> fresh(r)
+//@   ensures len(nextResult) == 0 ==> r == nextResult
+
+//@ func execUnionExprUnion(context, expr) (err)
+//@   property C03 C13 C15
+//@   uses sem
+//@   requires $HPRE$ && nt($B$) == NT_UnionExprUnion
+//@   modifies context.result
+//@   ensures $HPOSTE$                                                         @error-iff-specified
+//@   ensures $HS1$                                                            @node-set
+//@   ensures $HS2A$                                                           @document-order
+//@   ensures $HS3A$                                                           @spec-ascending
+//@   ensures $HS4$                                                            @set-union
+//@   ensures $HPOSTV$                                                         @value-is-Sem
